@@ -304,4 +304,10 @@ def isCompleteResidueSystem (S : M3 Int) (c : SnfCert) (pts : List (V3 Int)) : B
   c.ok S && pts.length == (boxPoints c.D).length &&
     (boxPoints c.D).all (fun m => (pts.filter (fun p => eqModS S p (c.Pinv.mulVec m))).length == 1)
 
+/-- the classic route: the box of the surrounding frame meets every residue class of `ℤ³ / Sℤ³`
+(checked against the representatives of an SNF certificate) -/
+def frameComplete (S : M3 Int) (c : SnfCert) : Bool :=
+  c.ok S && (boxPoints c.D).all (fun m =>
+    (latticePoints (surroundingFrame S)).any (fun p => eqModS S p (c.Pinv.mulVec m)))
+
 end PhononModel.Supercell
